@@ -241,6 +241,10 @@ FORMULAS = [
   ("eq-raises", "class Q(object):\n  def __eq__(self, o): raise ValueError('no eq')\nreturn Q()"),
   ("namedtuple", "import collections\nreturn collections.namedtuple('P', 'x y')(1, 2)"),
   ("list-like-encoded-date", "return ['d', 0]"), ("list-like-encoded-obj", "return ['O', {'a': 1}]"),
+  ("reflist-formula-cell", "return $members"), ("list-of-reflist-formula-cell", "return [$members, $members]"),
+  ("dict-of-reflist-formula-cell", "return {'m': $members}"), ("ref-formula-cell", "return $ref"),
+  ("reflist-data-cell", "return $rl"), ("reflist-cell-attr", "return $members.a"),
+  ("reflist-formula-cell-clone", "return T.lookupOne(a=1).members"),
   ("PEEK", "return PEEK($f)"), ("RECORD", "return RECORD(rec)"), ("RECORD-dates", "return RECORD(rec, dates_as_iso=False)"),
 ]
 COL_TYPES = ["Any", "Text", "Int", "Numeric", "Bool", "Date", "DateTime:UTC", "Choice", "ChoiceList", "Ref:T", "RefList:T",
@@ -290,8 +294,13 @@ def call_transport(a):
                 ["apply_user_actions", [
                   ["AddTable", "T", [{"id": "a", "type": "Int", "isFormula": False, "formula": ""},
                                      {"id": "n", "type": "Numeric", "isFormula": False, "formula": ""},
-                                     {"id": "dt", "type": "DateTime:America/New_York", "isFormula": False, "formula": ""}]],
-                  ["BulkAddRecord", "T", [None, None], {"a": [1, 2], "n": ["abc", 2.5], "dt": [1583652600, None]}]]])
+                                     {"id": "dt", "type": "DateTime:America/New_York", "isFormula": False, "formula": ""},
+                                     # typed reference cells filled by formulas: a RefList formula column
+                                     # stores its lookup result as a RecordList (a list subclass)
+                                     {"id": "members", "type": "RefList:T", "isFormula": True, "formula": "T.lookupRecords(a=$a, order_by='-id')"},
+                                     {"id": "ref", "type": "Ref:T", "isFormula": True, "formula": "T.lookupOne(a=$a)"},
+                                     {"id": "rl", "type": "RefList:T", "isFormula": False, "formula": ""}]],
+                  ["BulkAddRecord", "T", [None, None], {"a": [1, 2], "n": ["abc", 2.5], "dt": [1583652600, None], "rl": [["L", 2, 1], None]}]]])
   if any(how != "returned" or rep[0] is not True for (_, how, _, rep) in init):
     raise RuntimeError("harness: document set-up failed: %r" % ([(n, how, short(x), rep[0]) for n, how, x, rep in init],))
   col = {"type": a["coltype"], "isFormula": a["mode"] == "formula", "formula": _F[a["formula"]]}
